@@ -6,7 +6,8 @@ export CARGO_NET_OFFLINE=true
 mkdir -p target evidence replay ocaml/gen
 [ -f harness/Cargo.lock ] || cp /repo/Cargo.lock harness/Cargo.lock
 rc=0
-( cd coq && coq_makefile -f _CoqProject -o Makefile >/dev/null 2>&1 && timeout 3000 make -j16 2>&1 | grep -v "^Closed under\|^COQ\|WARNING" | tail -20 ) || rc=1
+python3 -c "import sys; sys.path.insert(0,'lib'); import vcheck; vcheck.ensure_makefile()" || rc=1
+( cd coq && timeout 3000 make -k -j16 2>&1 | grep -v "^Closed under\|^COQ\|WARNING" | tail -20 ) || rc=1
 python3 - <<'PY' || rc=1
 import os, sys
 sys.path.insert(0, 'lib')
